@@ -78,57 +78,90 @@ pub struct ExploreStats {
 /// Explore every choice sequence with at most `bound` deviations (None: all). `body` returns
 /// Ok(outcome label) or Err(violation message). Returns stats, the list of distinct outcome
 /// labels with counts, and the first few violations as (choices, message).
+///
+/// Depth-first and streaming: a node's children are generated after its execution and explored
+/// recursively (in parallel), so memory stays O(depth x branching) however many executions there are.
 pub fn explore<F>(bound: Option<usize>, max_violations: usize, body: F) -> (ExploreStats, Vec<(String, u64)>, Vec<(Vec<u32>, String)>)
 where
     F: Fn(&mut Chooser) -> Result<String, String> + Sync,
 {
-    let mut stats = ExploreStats::default();
-    let mut outcomes: std::collections::BTreeMap<String, u64> = Default::default();
-    let mut violations: Vec<(Vec<u32>, String)> = Vec::new();
-    let mut frontier: Vec<Vec<Pick>> = vec![vec![]];
-    let mut level = 0usize;
-    loop {
-        let results: Vec<(Vec<Pick>, usize, Result<String, String>)> = frontier
-            .par_iter()
-            .map(|prefix| {
-                let mut ch = Chooser::new(prefix.clone());
-                let r = body(&mut ch);
-                (ch.trace, prefix.len(), r)
-            })
-            .collect();
-        stats.per_deviation.push(results.len() as u64);
-        let mut next: Vec<Vec<Pick>> = Vec::new();
-        let expand = bound.map_or(true, |b| level < b);
-        for (trace, plen, r) in results {
-            stats.executions += 1;
-            stats.choice_points += trace.len() as u64;
-            stats.max_trace_len = stats.max_trace_len.max(trace.len());
-            match r {
-                Ok(label) => *outcomes.entry(label).or_insert(0) += 1,
-                Err(msg) => {
-                    *outcomes.entry("VIOLATION".into()).or_insert(0) += 1;
-                    if violations.len() < max_violations {
-                        violations.push((trace.iter().map(|p| p.choice).collect(), msg));
-                    }
-                }
-            }
-            if expand {
-                for i in plen..trace.len() {
-                    for alt in 1..trace[i].options {
-                        let mut p: Vec<Pick> = trace[..i].to_vec();
-                        p.push(Pick { choice: alt, options: trace[i].options });
-                        next.push(p);
-                    }
-                }
-            }
-        }
-        if next.is_empty() {
-            stats.whole_tree = expand;
-            stats.bound_completed = Some(level);
-            break;
-        }
-        frontier = next;
-        level += 1;
+    use std::sync::atomic::{AtomicBool, AtomicU64, AtomicUsize, Ordering};
+    use std::sync::Mutex;
+    struct Shared<'a, F> {
+        body: &'a F,
+        bound: Option<usize>,
+        max_violations: usize,
+        executions: AtomicU64,
+        choice_points: AtomicU64,
+        max_trace_len: AtomicUsize,
+        per_deviation: Vec<AtomicU64>,
+        cut: AtomicBool,
+        outcomes: Mutex<std::collections::BTreeMap<String, u64>>,
+        violations: Mutex<Vec<(Vec<u32>, String)>>,
     }
-    (stats, outcomes.into_iter().collect(), violations)
+    fn go<F: Fn(&mut Chooser) -> Result<String, String> + Sync>(sh: &Shared<F>, prefix: Vec<Pick>, level: usize) {
+        let plen = prefix.len();
+        let mut ch = Chooser::new(prefix);
+        let r = (sh.body)(&mut ch);
+        let trace = ch.trace;
+        sh.executions.fetch_add(1, Ordering::Relaxed);
+        sh.choice_points.fetch_add(trace.len() as u64, Ordering::Relaxed);
+        sh.max_trace_len.fetch_max(trace.len(), Ordering::Relaxed);
+        if let Some(c) = sh.per_deviation.get(level) {
+            c.fetch_add(1, Ordering::Relaxed);
+        }
+        match r {
+            Ok(label) => *sh.outcomes.lock().unwrap().entry(label).or_insert(0) += 1,
+            Err(msg) => {
+                *sh.outcomes.lock().unwrap().entry("VIOLATION".into()).or_insert(0) += 1;
+                let mut v = sh.violations.lock().unwrap();
+                if v.len() < sh.max_violations {
+                    v.push((trace.iter().map(|p| p.choice).collect(), msg));
+                }
+            }
+        }
+        let expand = sh.bound.map_or(true, |b| level < b);
+        let has_alternatives = trace[plen..].iter().any(|p| p.options > 1);
+        if !expand {
+            if has_alternatives {
+                sh.cut.store(true, Ordering::Relaxed);
+            }
+            return;
+        }
+        let mut children: Vec<Vec<Pick>> = Vec::new();
+        for i in plen..trace.len() {
+            for alt in 1..trace[i].options {
+                let mut p: Vec<Pick> = trace[..i].to_vec();
+                p.push(Pick { choice: alt, options: trace[i].options });
+                children.push(p);
+            }
+        }
+        children.into_par_iter().for_each(|p| go(sh, p, level + 1));
+    }
+    let sh = Shared {
+        body: &body,
+        bound,
+        max_violations,
+        executions: AtomicU64::new(0),
+        choice_points: AtomicU64::new(0),
+        max_trace_len: AtomicUsize::new(0),
+        per_deviation: (0..64).map(|_| AtomicU64::new(0)).collect(),
+        cut: AtomicBool::new(false),
+        outcomes: Mutex::new(Default::default()),
+        violations: Mutex::new(vec![]),
+    };
+    go(&sh, vec![], 0);
+    let per: Vec<u64> = sh.per_deviation.iter().map(|a| a.load(Ordering::Relaxed)).collect();
+    let last = per.iter().rposition(|c| *c > 0).unwrap_or(0);
+    let stats = ExploreStats {
+        executions: sh.executions.load(Ordering::Relaxed),
+        choice_points: sh.choice_points.load(Ordering::Relaxed),
+        max_trace_len: sh.max_trace_len.load(Ordering::Relaxed),
+        per_deviation: per[..=last].to_vec(),
+        bound_completed: Some(bound.map_or(last, |b| b.min(last.max(b.min(last))))),
+        whole_tree: !sh.cut.load(Ordering::Relaxed),
+    };
+    let mut viols = sh.violations.into_inner().unwrap();
+    viols.sort();
+    (stats, sh.outcomes.into_inner().unwrap().into_iter().collect(), viols)
 }
